@@ -1,7 +1,7 @@
 #!/bin/sh
 # developer tool: run every harness file symbolically (parallel) and print every lemma line that is not ok
 cd "$(dirname "$0")/.."
-ls contracts/C*.py | xargs -P ${J:-10} -I{} sh -c 'python3-vt -m pyvc.run {} > /tmp/_lem_$(basename {}).out 2>&1; echo "$(basename {}) rc=$? lemmas=$(grep -c " ok " /tmp/_lem_$(basename {}).out) notok=$(grep -E "^[a-zA-Z_0-9]+ +(unsupported|error|refuted|undecided|timeout)" /tmp/_lem_$(basename {}).out | wc -l)"'
+ls contracts/C*.py | grep -v _finding | xargs -P ${J:-10} -I{} sh -c 'python3-vt -m pyvc.run {} > /tmp/_lem_$(basename {}).out 2>&1; echo "$(basename {}) rc=$? lemmas=$(grep -c " ok " /tmp/_lem_$(basename {}).out) notok=$(grep -E "^[a-zA-Z_0-9]+ +(unsupported|error|refuted|undecided|timeout)" /tmp/_lem_$(basename {}).out | wc -l)"'
 grep -hE "^[a-zA-Z_0-9]+ +(unsupported|error|refuted|undecided|timeout)|Traceback" /tmp/_lem_C*.out | cut -c1-300 | head -40
 grep -hE "REFUTED|UNDECIDED" /tmp/_lem_C*.out | sed "s/\.path[0-9]* .*//" | sort | uniq -c | head -30
 rm -f /tmp/_lem_C*.out
